@@ -467,3 +467,20 @@ where
         digest
     }
 }
+
+/* ===================== verification hooks ===================== */
+
+#[cfg(feature = "verif-hooks")]
+impl TDigest {
+    /// Read-only view for the external verification harness:
+    /// `(centroids as (mean, weight), total_weight, min, max)`.
+    #[must_use]
+    pub fn verif_state(&self) -> (Vec<(f64, f64)>, f64, f64, f64) {
+        (
+            self.centroids.iter().map(|c| (c.mean, c.weight)).collect(),
+            self.total_weight,
+            self.min,
+            self.max,
+        )
+    }
+}
